@@ -494,3 +494,104 @@ pub fn mutate(rng: &mut Rng, src: &str) -> String {
     }
     chars.into_iter().collect()
 }
+
+// ---------------------------------------------------------------------------------------------
+// preprocessor-grammar-aware programs (C08, C07): macro definitions with formals and defaults,
+// usages with nested brackets / strings / commas / omitted arguments, stringification and
+// pasting, continuation lines, position directives, kept directives, all line endings
+
+fn nl(rng: &mut Rng) -> &'static str {
+    match rng.below(12) {
+        0 => "\r\n",
+        1 => "\r",
+        _ => "\n",
+    }
+}
+
+fn macro_arg(rng: &mut Rng, depth: u32) -> String {
+    match rng.below(if depth == 0 { 6 } else { 10 }) {
+        0 => String::new(),
+        1 => ident(rng),
+        2 => number(rng),
+        3 => format!("\"s,{})\"", ident(rng)),
+        4 => " ".into(),
+        5 => format!("{} + {}", ident(rng), number(rng)),
+        6 => format!("({}, {})", macro_arg(rng, depth - 1), macro_arg(rng, depth - 1)),
+        7 => format!("{{{}}}", macro_arg(rng, depth - 1)),
+        8 => format!("[{}:{}]", number(rng), number(rng)),
+        _ => format!("`M{}", rng.below(4)),
+    }
+}
+
+pub fn macro_program(rng: &mut Rng) -> String {
+    let mut out = String::new();
+    let n = 2 + rng.below(8);
+    for _ in 0..n {
+        let k = rng.below(24);
+        let e = nl(rng);
+        match k {
+            0 | 1 => out.push_str(&format!("`define M{} {}{}", rng.below(4), macro_arg(rng, 1), e)),
+            2 => out.push_str(&format!("`define M{}{}", rng.below(4), e)),
+            3 | 4 => {
+                let d1 = if rng.coin() { format!("={}", macro_arg(rng, 1)) } else { String::new() };
+                let d2 = if rng.coin() { format!(" = {}", macro_arg(rng, 1)) } else { String::new() };
+                let body = match rng.below(6) {
+                    0 => "a + b".to_string(),
+                    1 => "`\"a``b`\"".to_string(),
+                    2 => "a``_``b".to_string(),
+                    3 => "\"a b\" a".to_string(),
+                    4 => format!("a \\{}  b", e),
+                    _ => "`\\`\"a`\\`\" b // c".to_string(),
+                };
+                out.push_str(&format!("`define F{}(a{},b{}) {}{}", rng.below(3), d1, d2, body, e));
+            }
+            5 | 6 | 7 => out.push_str(&format!("wire x{} = `M{};{}", rng.below(9), rng.below(4), e)),
+            8 | 9 | 10 => {
+                let args = match rng.below(5) {
+                    0 => String::new(),
+                    1 => macro_arg(rng, 2),
+                    2 => format!("{},{}", macro_arg(rng, 2), macro_arg(rng, 2)),
+                    3 => format!("{}, {}, {}", macro_arg(rng, 1), macro_arg(rng, 1), macro_arg(rng, 1)),
+                    _ => ",".to_string(),
+                };
+                let call = if rng.chance(1, 8) { format!("`F{}", rng.below(3)) } else { format!("`F{}({})", rng.below(3), args) };
+                out.push_str(&format!("assign y = {};{}", call, e));
+            }
+            11 => out.push_str(&format!("`undef M{}{}", rng.below(4), e)),
+            12 => out.push_str(&format!("`ifdef M{}{}  a{}`elsif F{}{}  b{}`else{}  c{}`endif{}", rng.below(4), e, e, rng.below(3), e, e, e, e, e)),
+            13 => out.push_str(&format!("`ifndef M{} `define M{} 1 {}`endif{}", rng.below(4), rng.below(4), e, e)),
+            14 => out.push_str(&format!("$display(`__FILE__, `__LINE__);{}", e)),
+            15 => out.push_str(&format!("`line {} \"f.v\" {}{}", rng.below(100), rng.below(3), e)),
+            16 => out.push_str(&format!("`timescale 1{} / 10{}{}", rng.pick(&["ns", "ps", "us"]), rng.pick(&["ps", "fs"]), e)),
+            17 => out.push_str(&format!("`begin_keywords \"{}\"{}", rng.pick(VERSIONS), e)),
+            18 => out.push_str(&format!("`end_keywords{}", e)),
+            19 => out.push_str(&format!("`pragma protect {}{}", ident(rng), e)),
+            20 => out.push_str(&format!("\\esc{}id  `M{} \"str `M{} \\\" x\" /* c `M1 */ // `M2{}", rng.below(9), rng.below(4), rng.below(4), e)),
+            21 => out.push_str(&format!("`{}{}", rng.pick(&["resetall", "celldefine", "endcelldefine", "undefineall", "nounconnected_drive", "unconnected_drive pull1", "default_nettype none"]), e)),
+            22 => out.push_str(&format!("`include \"{}\"{}", rng.pick(&["included.svh", "f", "missing.svh", "top.sv"]), e)),
+            _ => out.push_str(&format!("`M{}(`M{}){}", rng.below(4), rng.below(4), e)),
+        }
+    }
+    out
+}
+
+/// a different text of exactly the same byte length (one ASCII letter or digit changed)
+pub fn same_len_variant(rng: &mut Rng, text: &str) -> String {
+    let idx: Vec<usize> = text
+        .char_indices()
+        .filter(|(_, c)| c.is_ascii_alphanumeric())
+        .map(|(i, _)| i)
+        .collect();
+    if idx.is_empty() {
+        return text.to_string();
+    }
+    let i = *rng.pick(&idx);
+    let mut b = text.as_bytes().to_vec();
+    b[i] = match b[i] {
+        b'a'..=b'y' | b'A'..=b'Y' | b'0'..=b'8' => b[i] + 1,
+        b'z' => b'a',
+        b'Z' => b'A',
+        _ => b'0',
+    };
+    String::from_utf8(b).unwrap_or_else(|_| text.to_string())
+}
